@@ -90,6 +90,14 @@ def _fallthrough(stmts):
     'if A: exit / elif B: exit' excludes both)."""
     out = []
     for st in stmts:
+        if isinstance(st, ast.For) and isinstance(st.target, ast.Name) and st.target.id.startswith('__h') and st.target.id.endswith('_once'):
+            # the one-trip loop an expanded helper stands in (sa.inline): what its raising / returning guards exclude holds after it;
+            # a 'break' there is the helper's return and excludes nothing
+            for e, pol in _fallthrough(st.body):
+                src = [x for x in st.body if isinstance(x, ast.If) and x.test is e]
+                if src and (always_exits(src[0].body, loop_exits=False) if pol is False else always_exits(src[0].orelse, loop_exits=False)):
+                    out.append((e, pol))
+            continue
         if isinstance(st, ast.If):
             if always_exits(st.body) and not (st.orelse and always_exits(st.orelse)):
                 out.append((st.test, False))
